@@ -623,6 +623,21 @@ Proof.
   - intros label ->. rewrite history_autoload, E. simpl. rewrite R. reflexivity.
 Qed.
 
+(* no primitive step raises OSError any more *)
+Lemma exec_no_err s f : snd (fst (exec s f)) = false.
+Proof.
+  destruct s as [d|p|p c n|p|p p'|p|d]; simpl; try reflexivity.
+  destruct d as [x|]; [|reflexivity]. destruct (mems x (dirs f)); [|reflexivity].
+  destruct (dir_empty f (Some x)); reflexivity.
+Qed.
+
+Lemma run_steps_no_err ss : forall f, snd (fst (run_steps ss f)) = false.
+Proof.
+  induction ss as [|s t IH]; intros f; simpl; [reflexivity|].
+  pose proof (exec_no_err s f) as E. destruct (exec s f) as [[f1 e1] t1]; simpl in E.
+  specialize (IH f1). destruct (run_steps t f1) as [[f2 e2] t2]; simpl in *. subst. reflexivity.
+Qed.
+
 Theorem class_refused f l c w c' v :
   load_file f l = LOk c' v -> c' <> c -> node_load f l (c, w) = ((c, w), NTypeErr).
 Proof.
@@ -630,19 +645,19 @@ Proof.
   destruct (cls_eqb c' c) eqn:E; [apply cls_eqb_eq in E; contradiction|reflexivity].
 Qed.
 
-Theorem class_refused_ctor f label c c' v (del : bool) :
-  load_file (if del then fs_of (delete (default_loc label) f) else f) (default_loc label) = LOk c' v -> c' <> c ->
-  snd (fst (ctor label c del true f)) = ((c, 0%Z), NTypeErr) \/ snd (snd (fst (ctor label c del true f))) = NOsErr.
+Theorem class_refused_ctor f label c c' v (dl : bool) :
+  load_file (if dl then fs_of (delete (default_loc label) f) else f) (default_loc label) = LOk c' v -> c' <> c ->
+  snd (fst (ctor label c dl true f)) = ((c, 0%Z), NTypeErr).
 Proof.
-  intros H N. unfold ctor, fs_of in *. destruct del.
-  - destruct (delete (default_loc label) f) as [[f1 e] t]; simpl in *.
-    destruct e; [right; reflexivity|left].
+  intros H N. unfold ctor, fs_of in *. destruct dl.
+  - pose proof (run_steps_no_err (delete_steps (default_loc label)) f) as E. fold (delete (default_loc label) f) in E.
+    destruct (delete (default_loc label) f) as [[f1 e] t]; simpl in *. subst e.
     assert (Hs : has_saved f1 (default_loc label) = true).
     { unfold has_saved. unfold load_file in H.
       destruct (read f1 (fin (default_loc label) Pk)); [reflexivity|].
       destruct (read f1 (fin (default_loc label) Cp)); [reflexivity|discriminate]. }
     rewrite Hs. simpl. apply (class_refused _ _ c 0%Z c' v); assumption.
-  - left. simpl in *.
+  - simpl in *.
     assert (Hs : has_saved f (default_loc label) = true).
     { unfold has_saved. unfold load_file in H.
       destruct (read f (fin (default_loc label) Pk)); [reflexivity|].
@@ -696,8 +711,8 @@ Proof.
   - destruct d as [x|]; [|exact H]. destruct (mems x (dirs f)) eqn:M; [exact H|]. simpl.
     constructor; [|exact H]. intros Hin. apply mems_In in Hin. congruence.
   - destruct (read f p); exact H.
-  - destruct (dir_exists f d); [|exact H]. destruct (dir_empty f d); [|exact H].
-    destruct d as [x|]; [|exact H]. simpl. apply nodup_remove1, H.
+  - destruct d as [x|]; [|exact H]. destruct (mems x (dirs f)); [|exact H].
+    destruct (dir_empty f (Some x)); [|exact H]. simpl. apply nodup_remove1, H.
 Qed.
 
 Lemma nodup_run_steps ss : forall f, NoDup (dirs f) -> NoDup (dirs (fs_of (run_steps ss f))).
@@ -762,57 +777,38 @@ Proof.
   - intros l' Hl. rewrite !history_load, spec_snoc. simpl. rewrite vset_other by (apply loc_eqb_neq, Hl). reflexivity.
   - intros d u. rewrite run_snoc. simpl. apply read_delete_user.
   - intros d Hd. rewrite run_snoc. simpl. unfold delete, delete_steps. rewrite run_steps_app.
-    destruct l as [dl s]; simpl in Hd; subst dl. simpl fst.
+    destruct l as [dl s]; simpl in Hd; subst dl. simpl fst. simpl rmdir_steps.
     rewrite run_steps_cons. change (fs_of (run_steps [] ?x)) with x.
     apply rmdir_removes, nodup_run_steps, nodup_run.
 Qed.
 
-(* ... and with no scratch file left behind by an interrupted save, nothing of the location remains *)
-Theorem delete_cleans_guarded ops l :
-  read (run ops) (tmp l Pk) = None -> read (run ops) (tmp l Cp) = None ->
+(* nothing the storage wrote for the location remains -- final files and scratch files alike *)
+Theorem delete_cleans ops l :
   let f' := run (ops ++ [ODelete l]) in
   forall fl, read f' (fin l fl) = None /\ read f' (tmp l fl) = None.
 Proof.
-  intros T1 T2 f' fl. subst f'. destruct (delete_final_gone ops l) as (A & B & _).
-  split; [destruct fl; assumption|].
-  rewrite run_snoc. simpl.
+  intros f' fl. subst f'. rewrite run_snoc. simpl.
   pose proof (view_delete_same l (run ops)) as V. unfold view in V.
-  destruct fl.
-  - change (tmp l Pk) with (spath l TP). rewrite V. unfold adelete_steps.
-    destruct (has_saved (run ops) l); simpl; exact T1.
-  - change (tmp l Cp) with (spath l TC). rewrite V. unfold adelete_steps.
-    destruct (has_saved (run ops) l); simpl; exact T2.
+  destruct fl; split.
+  - exact (V FP).
+  - exact (V TP).
+  - exact (V FC).
+  - exact (V TC).
 Qed.
 
-(* OSError only comes from removing the cwd *)
-Lemma exec_err s f : snd (fst (exec s f)) = true -> s = SRmdirIfEmpty None.
-Proof.
-  destruct s as [d|p|p c n|p|p p'|p|d]; simpl; try discriminate.
-  destruct (dir_exists f d); [|discriminate]. destruct (dir_empty f d); [|discriminate].
-  destruct d; [discriminate|reflexivity].
-Qed.
+Theorem delete_no_error f l : snd (fst (delete l f)) = false.
+Proof. apply run_steps_no_err. Qed.
 
-Lemma run_steps_err ss : forall f, snd (fst (run_steps ss f)) = true -> In (SRmdirIfEmpty None) ss.
+Theorem save_never_oserror l fb c v kd n g crash f : snd (fst (save l fb c v kd n g crash f)) <> SOsErr.
 Proof.
-  induction ss as [|s t IH]; intros f; simpl; [discriminate|].
-  pose proof (exec_err s f) as E. destruct (exec s f) as [[f1 e1] t1]; simpl in E.
-  specialize (IH f1). destruct (run_steps t f1) as [[f2 e2] t2]; simpl in *.
-  destruct e1; simpl; [intros _; left; apply E; reflexivity|intros H; right; apply IH, H].
-Qed.
-
-Theorem delete_no_error f l d : fst l = Some d -> snd (fst (delete l f)) = false.
-Proof.
-  intros H. destruct (snd (fst (delete l f))) eqn:E; [|reflexivity]. exfalso.
-  apply run_steps_err in E. unfold delete_steps in E. destruct l as [dl s]; simpl in H; subst dl.
-  destruct (has_saved f (Some d, s)); simpl in E; intuition discriminate.
-Qed.
-
-Theorem save_no_error l d fb c v kd n g f : fst l = Some d ->
-  snd (fst (run_steps (save_steps l fb c v kd n g) f)) = false.
-Proof.
-  intros H. destruct (snd (fst (run_steps (save_steps l fb c v kd n g) f))) eqn:E; [|reflexivity]. exfalso.
-  apply run_steps_err in E. unfold save_steps, attack in E. destruct l as [dl s]; simpl in H; subst dl.
-  destruct kd, fb; simpl in E; intuition discriminate.
+  unfold save. cbv zeta.
+  pose proof (run_steps_no_err (save_steps l fb c v kd n g) f) as E.
+  destruct (run_steps (save_steps l fb c v kd n g) f) as [[f1 e] t]; simpl in E; subst e.
+  destruct crash as [[i j]|].
+  - destruct (Nat.ltb i (List.length (save_steps l fb c v kd n g))).
+    + destruct (crash_at (save_steps l fb c v kd n g) i j f) as [f2 t2]; simpl; discriminate.
+    + simpl. destruct (save_ok kd fb); discriminate.
+  - simpl. destruct (save_ok kd fb); discriminate.
 Qed.
 
 (* ---- files live in existing directories (so "the file is still there" includes its directory) ---- *)
@@ -854,8 +850,8 @@ Proof.
     + destruct (path_eqb (Some d, nm) p); [discriminate|apply W].
   - destruct (path_eqb (Some d, nm) p); [discriminate|apply W].
   - intros H. pose proof (W _ _ _ H) as M.
-    destruct (dir_exists f d0); [|exact M]. destruct (dir_empty f d0) eqn:Em; [|exact M].
-    destruct d0 as [x|]; [|exact M]. simpl.
+    destruct d0 as [x|]; [|exact M]. destruct (mems x (dirs f)); [|exact M].
+    destruct (dir_empty f (Some x)) eqn:Em; [|exact M]. simpl.
     destruct (String.eqb d x) eqn:Ex.
     + apply String.eqb_eq in Ex; subst x. apply read_has_file in H. simpl in H.
       unfold dir_empty in Em. rewrite H in Em. discriminate.
@@ -893,7 +889,8 @@ Qed.
 Definition abody (fb : bool) (c : cls) (v : Z) (k : kind) (n g : nat) : list astep :=
   aattack fb c v k n g Pk ++ (if pickles k Pk then [] else if fb then aattack fb c v k n g Cp else []).
 
-Lemma asave_steps_body fb c v k n g : asave_steps fb c v k n g = AMkdir :: abody fb c v k n g ++ [ARmdir].
+Lemma asave_steps_body sub fb c v k n g :
+  asave_steps sub fb c v k n g = AMkdir :: abody fb c v k n g ++ (if sub then [ARmdir] else []).
 Proof. unfold asave_steps, abody. simpl. rewrite <- app_assoc. reflexivity. Qed.
 Lemma abody_no_rmdir fb c v k n g : forallb no_rmdir (abody fb c v k n g) = true.
 Proof. destruct k, fb; reflexivity. Qed.
@@ -918,16 +915,17 @@ Proof.
   rewrite firstn_map, firstn_app, map_app, run_steps_app.
   destruct (wfd_run_confined l (firstn j (abody fb c v kd n g)) f1
               (forallb_firstn _ _ _ (abody_no_rmdir fb c v kd n g)) W1 D1) as [W2 D2].
+  destruct (isSome (fst l)); [|rewrite firstn_nil; exact W2].
   destruct (j - List.length (abody fb c v kd n g)) as [|m]; [exact W2|].
   simpl firstn. simpl map. rewrite run_steps_cons, firstn_nil. simpl map. change (fs_of (run_steps [] ?x)) with x.
   apply wfd_exec; [exact W2|simpl; discriminate].
 Qed.
 
-Lemma awrite_target_exists fb c v kd n g i sl c0 n0 (w : aview) :
-  nth_error (asave_steps fb c v kd n g) i = Some (AWrite sl c0 n0) ->
-  arsteps (firstn i (asave_steps fb c v kd n g)) w sl = Some (Partial 0).
+Lemma awrite_target_exists sub fb c v kd n g i sl c0 n0 (w : aview) :
+  nth_error (asave_steps sub fb c v kd n g) i = Some (AWrite sl c0 n0) ->
+  arsteps (firstn i (asave_steps sub fb c v kd n g)) w sl = Some (Partial 0).
 Proof.
-  destruct kd, fb; do 12 (destruct i as [|i]; [cbn; intros H; inversion H; subst; reflexivity|]);
+  destruct sub, kd, fb; do 12 (destruct i as [|i]; [cbn; intros H; inversion H; subst; reflexivity|]);
     cbn; intros H; destruct i; discriminate.
 Qed.
 
@@ -942,7 +940,7 @@ Proof.
   destruct (Nat.ltb k n1); [|exact W1]. simpl.
   (* the file being written already exists *)
   rewrite save_steps_conc, nth_error_map' in E.
-  destruct (nth_error (asave_steps fb c v kd n g) i) as [[|s|s c2 n2|s|s t|s|]|] eqn:E2; simpl in E; try discriminate.
+  destruct (nth_error (asave_steps (isSome (fst l)) fb c v kd n g) i) as [[|s|s c2 n2|s|s t|s|]|] eqn:E2; simpl in E; try discriminate.
   inversion E; subst p c1 n1.
   assert (X : read f1 (spath l s) = Some (Partial 0)).
   { rewrite R, save_steps_conc, firstn_map.
@@ -964,7 +962,7 @@ Qed.
 Lemma wfd_delete l f : wfd f -> wfd (fs_of (delete l f)).
 Proof.
   intros W. unfold delete. apply wfd_run_steps_nocreate; [|exact W].
-  intros s Hs. unfold delete_steps in Hs. destruct (has_saved f l); simpl in Hs;
+  intros s Hs. unfold delete_steps, rmdir_steps in Hs. destruct (fst l); simpl in Hs;
     repeat (destruct Hs as [Hs|Hs]; [subst s; reflexivity|]); contradiction.
 Qed.
 
@@ -986,18 +984,6 @@ Proof.
   unfold run. assert (G : forall f, wfd f -> wfd (run_from f ops)).
   { induction ops as [|o t IH]; intros f H; simpl; [exact H|]. apply IH, wfd_apply, H. }
   apply G. intros d nm c H. discriminate.
-Qed.
-
-(* delete raises exactly when it is asked to remove the (emptied) cwd *)
-Definition after_unlinks (f : fs) (l : loc) : fs :=
-  fs_of (run_steps (if has_saved f l then [SUnlink (fin l Pk); SUnlink (fin l Cp)] else []) f).
-
-Theorem delete_error_iff f s :
-  snd (fst (delete (None, s) f)) = dir_empty (after_unlinks f (None, s)) None.
-Proof.
-  unfold delete, delete_steps, after_unlinks, fs_of.
-  destruct (has_saved f (None, s)); simpl;
-    match goal with |- context [dir_empty ?x None] => destruct (dir_empty x None) end; reflexivity.
 Qed.
 
 (* the observation function of the correspondence check walks the same file systems as [run] *)
